@@ -317,7 +317,14 @@ def apply(doc, case_seed, i, gen, kinds=None):
         doc.scene = r.choice(list(doc.scenes) + [None]) if doc.scenes else None
         return 'default_scene'
     if kind == 'rename':
-        name = r.choice(['geometries', 'lights', 'cameras', 'effects', 'materials', 'nodes', 'scenes', 'images', 'node'])
+        name = r.choice(['geometries', 'lights', 'cameras', 'effects', 'materials', 'nodes', 'scenes', 'images', 'node', 'effectparam'])
+        if name == 'effectparam':
+            # surfaces and samplers are referred to by sid from samplers and <texture>
+            ps = [p for e in doc.effects for p in e.params if isinstance(getattr(p, 'id', None), str)]
+            if not ps:
+                return None
+            r.choice(ps).id = gen.uid('renamedparam')
+            return 'rename:effectparam'
         if name == 'node':
             if not nodes:
                 return None
@@ -359,6 +366,14 @@ def apply(doc, case_seed, i, gen, kinds=None):
             cur = getattr(e, p)
             if not isinstance(cur, material.Map):
                 setattr(e, p, r.choice([None, gen.color(4)]))
+            maps = [getattr(e, q) for q in material.Effect.supported if isinstance(getattr(e, q), material.Map)]
+            if maps and r.random() < 0.6:
+                # edit a texture map in place: other texcoord channel, other sampler of the same effect
+                m = r.choice(maps)
+                m.texcoord = r.choice(['UVSET0', 'TEX1', 'CHANNEL2'])
+                samplers = [q for q in e.params if isinstance(q, material.Sampler2D)]
+                if samplers and r.random() < 0.5:
+                    m.sampler = r.choice(samplers)
             e.reflectivity = r.choice([None, 0.5, 0.125])
             e.double_sided = r.random() < 0.5
             if e.transparent is None:
